@@ -169,6 +169,7 @@ def run_check(pid: str, tier: str, nshards: int | None, examples: int | None) ->
         results = launch_shards(pid, tier, seed, shards, per_shard, tmpdir)
     merged = merge(results)
     known_hits = {}
+    shrink_left = 400 if tier == "quick" else 2000  # total re-executions spent on shrinking per run
     for sig, slot in sorted(merged["failures"].items()):
         entry = match_finding(sig, findings)
         if entry is not None:
@@ -177,8 +178,9 @@ def run_check(pid: str, tier: str, nshards: int | None, examples: int | None) ->
             if line not in known_lines:
                 known_lines.append(line)
             continue
-        budget = 120 if tier == "quick" else 400
-        small, runs = ddmin_ops(check, slot["program"], sig, budget=budget)
+        budget = min(120 if tier == "quick" else 400, shrink_left)
+        small, runs = (slot["program"], 0) if budget <= 0 else ddmin_ops(check, slot["program"], sig, budget=budget)
+        shrink_left -= runs
         res = safe_run(check, small)
         msg = next((f.msg for f in res.fails if f.sig == sig), slot["msg"])
         path = write_replay(pid, small, sig, msg, seed, tier)
